@@ -5,7 +5,7 @@ import itertools
 from ..core import AnchorMissing
 from ..e3 import Region, E3Error, name_of
 
-ROLE_DOM = {"same_key": [True, False], "visible": [True, False], "ts": ["none", "in", "above", "below"], "fvs": [False, True], "lihd": [False, True],
+ROLE_DOM = {"dup": [False, True], "same_key": [True, False], "visible": [True, False], "ts": ["none", "in", "above", "below"], "fvs": [False, True], "lihd": [False, True],
             "bs": [False, True], "hd": [False, True], "rp": [False, True], "tomb": [False, True], "incl": [False, True]}
 
 
@@ -70,6 +70,9 @@ def roles(cond):
             r["tomb"] = v
         elif a == "p1.include_tombstones":
             r["incl"] = v
+        elif a.startswith("rel(") and "last_version_seen" in a and "seq_num(" in a:
+            # the current version equals the one examined last for this key (offered by two sources)
+            r["dup"] = (v == "eq") if isinstance(v, str) else bool(v)
         else:
             raise E3Error("history step reads an input the oracle does not know: %s" % a)
     return r, gate
@@ -78,6 +81,9 @@ def roles(cond):
 def oracle(t):
     """t: total assignment of ROLE_DOM -> (action, (fvs, lihd, bs))"""
     fvs, lihd, bs = (t["fvs"], t["lihd"], t["bs"]) if t["same_key"] else (False, False, False)
+    if t.get("dup") and t["same_key"]:
+        # the same version offered by a second source: listed once, changes nothing
+        return "skip", (fvs, lihd, bs)
     if not t["visible"]:
         return "skip", (fvs, lihd, bs)
     if t["ts"] == "below":
@@ -122,12 +128,15 @@ ABOVE = {"bad": 0, "examples": []}
 def compare(cx, f):
     ABOVE["bad"] = 0
     ABOVE["examples"] = []
+    ABOVE["dup_tested"] = False
     b, leaves = extract(f)
     n = bad = 0
     examples = []
     rows = []
     for lf in leaves:
         r, gate = roles(lf.cond)
+        if "dup" in r:
+            ABOVE["dup_tested"] = True
         # only steps on a valid, in-bounds entry with successful inner calls follow the step semantics
         if gate.get("valid") is not True or gate.get("try") is False or gate.get("in_upper") is False or gate.get("in_lower") is False:
             continue
